@@ -191,3 +191,28 @@ func RequiredBearing() []string {
 	}
 	return out
 }
+
+// Modern returns Standard() without the historical generated-code generations under
+// internal/testprotos/legacy (wrapped legacy messages are the subject of C46).
+func Modern() []string {
+	var out []string
+	for _, n := range Standard() {
+		path := ByName(n).Descriptor().ParentFile().Path()
+		if strings.HasPrefix(path, "proto2_20") || strings.HasPrefix(path, "proto3_20") || strings.HasPrefix(n, "google.golang.org.") {
+			continue
+		}
+		out = append(out, n)
+	}
+	return out
+}
+
+// ModernRich returns the Modern() types with at least minFields fields.
+func ModernRich(minFields int) []string {
+	var out []string
+	for _, n := range Modern() {
+		if ByName(n).Descriptor().Fields().Len() >= minFields {
+			out = append(out, n)
+		}
+	}
+	return out
+}
